@@ -24,6 +24,9 @@ type c04Op struct {
 	Size   uint64 `json:"size,omitempty"`
 	FailAt int    `json:"failat,omitempty"`
 	Off    uint64 `json:"off,omitempty"`
+	// NP (map, pdtMap): the requested flags do NOT include the present bit - a legal flag
+	// combination ("park" a page): the entry holds the request, the page is not translatable
+	NP bool `json:"np,omitempty"`
 }
 
 type c04Case struct {
@@ -34,7 +37,7 @@ type c04Case struct {
 }
 
 type c04Stats struct {
-	sharedUpper, remap, unmapThenMap, inactiveOp, injectedFired, refusedRegion bool
+	sharedUpper, remap, unmapThenMap, inactiveOp, injectedFired, refusedRegion, notPresent bool
 }
 
 func (op c04Op) page() uint64 {
@@ -118,6 +121,9 @@ func c04Run(c c04Case) (fail *vlib.Failure, rs c04Stats) {
 		}
 		page := op.page()
 		flags := op.Flags | 1
+		if op.NP && (op.Kind == "map" || op.Kind == "pdtMap") {
+			flags = op.Flags &^ 1
+		}
 		if op.Kind == "mapRegion" && op.Size > 1<<32 && op.Size <= uint64(earlyReserveLastUsed) {
 			continue // (hand-written replays only) would have to map billions of pages
 		}
@@ -186,6 +192,21 @@ func c04Run(c c04Case) (fail *vlib.Failure, rs c04Stats) {
 					}
 				}
 				model[space][page] = vmLeaf{op.Frame, flags}
+				if flags&1 == 0 {
+					// not present: the page does not translate, but the entry must hold exactly
+					// what was asked for
+					delete(model[space], page)
+					everUnmapped[space][page] = true
+					rs.notPresent = true
+					es, _ := m.hwEntries(roots[space].Address(), uintptr(page)<<12)
+					if want := uintptr(op.Frame)<<12 | uintptr(flags); len(es) != 4 || es[3] != want {
+						got := uintptr(0)
+						if len(es) == 4 {
+							got = es[3]
+						}
+						return vlib.Failf("%s: page %#x mapped with flags %#x (not present): the hardware entry holds %#x (walk reached %d levels), want exactly frame %#x with the requested bits", when, page, flags, uint64(got)&^uint64(vmFrameMask)|uint64(m.frameTag(got)), len(es), op.Frame), rs
+					}
+				}
 				changed = append(changed, page)
 			}
 		case "unmap", "pdtUnmap":
@@ -354,6 +375,9 @@ func c04GenOp(t *rapid.T, spaces int) c04Op {
 	switch kind {
 	case "map", "pdtMap", "mapRegion", "identityMap":
 		op.Flags = c04GenFlags(t)
+		if (kind == "map" || kind == "pdtMap") && rapid.IntRange(0, 7).Draw(t, "notpresent") == 0 {
+			op.NP = true
+		}
 	}
 	switch kind {
 	case "mapRegion", "identityMap":
@@ -393,7 +417,7 @@ func TestVerifC04(t *testing.T) {
 		c.Ops = rapid.SliceOfN(rapid.Custom(func(t *rapid.T) c04Op { return c04GenOp(t, spaces) }), minOps, vlib.Scale(60, 300)).Draw(t, "ops")
 		fail, rs := c04Run(c)
 		var labels []string
-		for name, on := range map[string]bool{"shared-upper-table": rs.sharedUpper, "remap": rs.remap, "unmap-then-map": rs.unmapThenMap, "inactive-space-op": rs.inactiveOp, "injected-alloc-failure-fired": rs.injectedFired, "refused-region-map": rs.refusedRegion} {
+		for name, on := range map[string]bool{"shared-upper-table": rs.sharedUpper, "remap": rs.remap, "unmap-then-map": rs.unmapThenMap, "inactive-space-op": rs.inactiveOp, "injected-alloc-failure-fired": rs.injectedFired, "refused-region-map": rs.refusedRegion, "mapped-without-the-present-bit": rs.notPresent} {
 			if on {
 				labels = append(labels, name)
 			}
